@@ -402,6 +402,7 @@ type cworld struct {
 	cls   string // n o f
 	ing   *networking.Ingress
 	first bool
+	shape string // r = one rule (host ing.local), d = spec.defaultBackend only, t = spec.tls only, x = defaultBackend + tls
 }
 
 func newCWorld(cfg string) *cworld {
@@ -432,6 +433,17 @@ func (cw *cworld) mkIng2(ann string, ref bool) *networking.Ingress {
 	if ref {
 		s := "cls"
 		ing.Spec.IngressClassName = &s
+	}
+	// shapes without an HTTP rule: the converter reaches the IngressClass of such an ingress on other code paths
+	if cw.shape != "" && cw.shape != "r" {
+		ing.Spec.Rules = nil
+		if cw.shape == "d" || cw.shape == "x" {
+			ing.Spec.DefaultBackend = &networking.IngressBackend{Service: &networking.IngressServiceBackend{
+				Name: "svc", Port: networking.ServiceBackendPort{Number: 8080}}}
+		}
+		if cw.shape == "t" || cw.shape == "x" {
+			ing.Spec.TLS = []networking.IngressTLS{{Hosts: []string{"ing.local"}}}
+		}
 	}
 	return ing
 }
@@ -505,10 +517,10 @@ func (cw *cworld) op(op string) (flag string) {
 	}
 	cw.env.Cli.Reads()
 	cw.reconcile()
-	for _, h := range cw.env.Hostnames() {
-		if h == "ing.local" {
-			return "1"
-		}
+	// the only ingress of this world is `ing`: any host entry (ing.local by rule or tls block, <default> by
+	// spec.defaultBackend) is its contribution
+	if len(cw.env.Hostnames()) > 0 {
+		return "1"
 	}
 	return "0"
 }
@@ -519,15 +531,21 @@ func must(err error) {
 	}
 }
 
-func emitWorld(cfg string, ops []string) {
+func emitWorld(cfgShape string, ops []string) {
+	cfg, shape := cfgShape, "r"
+	if i := strings.IndexByte(cfgShape, ':'); i >= 0 {
+		cfg, shape = cfgShape[:i], cfgShape[i+1:]
+	}
 	cw := newCWorld(cfg)
+	cw.shape = shape
 	defer cw.env.Close()
 	var sb strings.Builder
 	for _, op := range ops {
 		sb.WriteString(cw.op(op))
 	}
-	emit("world "+cfg+" "+strings.Join(ops, ","), sb.String())
+	emit("world "+cfgShape+" "+strings.Join(ops, ","), sb.String())
 	stat("world", 1)
+	stat("world_shape_"+shape, 1)
 	stat("world_len_"+strconv.Itoa(len(ops)), 1)
 }
 
@@ -688,8 +706,22 @@ func TestC08(t *testing.T) {
 	if thorough {
 		wn = 3
 	}
+	// corpus: the IngressClass goes away under a selected ingress that has no HTTP rule (seed C08e)
+	for _, sh := range []string{"d", "t", "x"} {
+		emitWorld("00:"+sh, []string{"k:o", "ic:-/r", "k:n"})
+		emitWorld("00:"+sh, []string{"k:o", "ic:-/r", "k:f", "k:o", "k:n"})
+	}
 	for _, cfg := range cfgTok {
 		sequences(walpha, wn, func(ops []string) { emitWorld(cfg, ops) })
+		if thorough {
+			for _, sh := range []string{"d", "t", "x"} {
+				sequences(walpha, wn, func(ops []string) { emitWorld(cfg+":"+sh, ops) })
+			}
+		} else {
+			for _, sh := range []string{"d", "t"} {
+				sequences(walpha, 2, func(ops []string) { emitWorld(cfg+":"+sh, ops) })
+			}
+		}
 	}
 	nw := 400
 	if thorough {
@@ -702,7 +734,7 @@ func TestC08(t *testing.T) {
 		for j := range ops {
 			ops[j] = gen.Pick(rw, walpha)
 		}
-		emitWorld(gen.Pick(rw, cfgTok), ops)
+		emitWorld(gen.Pick(rw, cfgTok)+gen.Pick(rw, []string{"", "", ":d", ":t", ":x"}), ops)
 	}
 	for _, ww := range histWorlds {
 		ww.env.Close()
